@@ -267,10 +267,12 @@ def listenLoop (mp : Nat) : Nat → DevRun → M (ListenResult × DevRun)
         | .sessionExpired => pure (.ok .sessionExpired, r)
         | _ => panic "ListenResponse::from"
 
-/-- `Device::rxc_listen` -/
+/-- `Device::rxc_listen`.  The loop of the code has no bound of its own: every turn consumes one answer
+of the radio, so a script of `n` answers allows at most `n + 1` turns (the fuel; `hang "rxc_listen"`
+is unreachable — `C04.async_listen_no_panic`) -/
 def asyncListen (r : DevRun) : M (ListenResult × DevRun) := do
   let rf ← macRxcConfig r.m
-  listenLoop rf.maxPayload.toNat 64 r
+  listenLoop rf.maxPayload.toNat (r.script.length + 1) r
 
 /-- `Device::join` (OTAA) -/
 def asyncJoin {σ} (g : Rng σ) (cfg : DevCfg) (r : DevRun) (rs : σ) : M (DevResult × DevRun × σ) := do
